@@ -102,6 +102,9 @@ func safely(f func() string) (s string) {
 		if e := recover(); e != nil {
 			debugPanic(e)
 			s = "crash"
+			if e == "env-timeout" {
+				s = "env-timeout"
+			}
 		}
 	}()
 	return f()
